@@ -3,30 +3,32 @@
 (* laws on it and prints the row with the reference output for replay on the code.  *)
 EXTENDS SeqFns, TLC, Json
 CONSTANTS MaxLen, MaxN, EmitRows
-VARIABLE row
+VARIABLES f, s, n, fill, sep, ms, kf
+vars == <<f, s, n, fill, sep, ms, kf>>
 RECURSIVE Seqs(_)
-Seqs(n) == IF n = 0 THEN {<<>>} ELSE LET s == Seqs(n - 1) IN s \cup {Append(x, u) : x \in {y \in s : Len(y) = n - 1}, u \in 0..2}
+Seqs(k) == IF k = 0 THEN {<<>>} ELSE LET t == Seqs(k - 1) IN t \cup {Append(x, u) : x \in {y \in t : Len(y) = k - 1}, u \in 0..2}
 S == Seqs(MaxLen)
-R(f, s, n, fill, sep, ms, kf, out) == [f |-> f, s |-> s, n |-> n, fill |-> fill, sep |-> sep, ms |-> ms, kf |-> kf, out |-> out]
 (* sep: 0 = None (element 0 stands for None, grouping), 1 = the value 0, 2 = the set {0,1}, 3 = a predicate (x = 0) *)
-Seps(sep) == IF sep = 2 THEN {0, 1} ELSE {0}
-Rows ==
-       {R("chunked", s, n, fill, 0, 0, 0, Chunked(s, n, fill)) : s \in S, n \in 1..MaxN, fill \in {-1, 7}}
-  \cup {R("windowed", s, n, fill, 0, 0, 0, Windowed(s, n, fill)) : s \in S, n \in 1..MaxN, fill \in {-1, 7}}
-  \cup {R("split", s, 0, 0, sep, ms, 0, Split(s, Seps(sep), sep = 0, ms)) : s \in S, sep \in 0..3, ms \in {-1, 0, 1, 2, 5}}
-  \cup {R("lstrip", s, 0, 0, 0, 0, 0, LStrip(s, 0)) : s \in S}
-  \cup {R("rstrip", s, 0, 0, 0, 0, 0, RStrip(s, 0)) : s \in S}
-  \cup {R("strip", s, 0, 0, 0, 0, 0, Strip(s, 0)) : s \in S}
-  \cup {R("unique", s, 0, 0, 0, 0, kf, Unique(s, kf)) : s \in S, kf \in 0..2}
-  \cup {R("redundant", s, 0, 0, 0, 0, kf, Redundant(s, kf)) : s \in S, kf \in 0..2}
-  \cup {R("redundant_groups", s, 0, 0, 0, 0, kf, RedundantGroups(s, kf)) : s \in S, kf \in 0..2}
-  \cup {R("bucketize", s, 0, 0, 0, 0, kf, Buckets(s, kf)) : s \in S, kf \in 0..2}
-  \cup {R("partition", s, 0, 0, 0, 0, kf, Partition(s, kf)) : s \in S, kf \in 0..1}
-  \cup {R("chunk_ranges", <<size, chunk, offset, overlap>>, IF align THEN 1 ELSE 0, 0, 0, 0, 0, ChunkRanges(size, chunk, offset, overlap, align)) :
-            size \in 0..9, chunk \in 1..5, offset \in 0..6, overlap \in 0..4, align \in BOOLEAN} 
-Init == row \in {r \in Rows : r.f # "chunk_ranges" \/ r.s[4] < r.s[2]}
-Next == UNCHANGED row
-Spec == Init /\ [][Next]_row
+Seps(x) == IF x = 2 THEN {0, 1} ELSE {0}
+Z == n = 0 /\ fill = 0 /\ sep = 0 /\ ms = 0 /\ kf = 0
+Init ==
+  \/ /\ f \in {"chunked", "windowed"} /\ s \in S /\ n \in 1..MaxN /\ fill \in {-1, 7} /\ sep = 0 /\ ms = 0 /\ kf = 0
+  \/ /\ f = "split" /\ s \in S /\ sep \in 0..3 /\ ms \in {-1, 0, 1, 2, 5} /\ n = 0 /\ fill = 0 /\ kf = 0
+  \/ /\ f \in {"lstrip", "rstrip", "strip"} /\ s \in S /\ Z
+  \/ /\ f \in {"unique", "redundant", "redundant_groups", "bucketize"} /\ s \in S /\ kf \in 0..2 /\ n = 0 /\ fill = 0 /\ sep = 0 /\ ms = 0
+  \/ /\ f = "partition" /\ s \in S /\ kf \in 0..1 /\ n = 0 /\ fill = 0 /\ sep = 0 /\ ms = 0
+  \/ /\ f = "chunk_ranges" /\ \E size \in 0..9, chunk \in 1..5, offset \in 0..6, overlap \in 0..4 : overlap < chunk /\ s = <<size, chunk, offset, overlap>>
+      /\ n \in 0..1 /\ fill = 0 /\ sep = 0 /\ ms = 0 /\ kf = 0
+Next == UNCHANGED vars
+Spec == Init /\ [][Next]_vars
+Out == CASE f = "chunked" -> Chunked(s, n, fill)
+         [] f = "windowed" -> Windowed(s, n, fill)
+         [] f = "split" -> Split(s, Seps(sep), sep = 0, ms)
+         [] f = "lstrip" -> LStrip(s, 0) [] f = "rstrip" -> RStrip(s, 0) [] f = "strip" -> Strip(s, 0)
+         [] f = "unique" -> Unique(s, kf) [] f = "redundant" -> Redundant(s, kf) [] f = "redundant_groups" -> RedundantGroups(s, kf)
+         [] f = "bucketize" -> Buckets(s, kf) [] f = "partition" -> Partition(s, kf)
+         [] f = "chunk_ranges" -> ChunkRanges(s[1], s[2], s[3], s[4], n = 1)
+row == [f |-> f, s |-> s, n |-> n, fill |-> fill, sep |-> sep, ms |-> ms, kf |-> kf, out |-> Out]
 Laws == CASE row.f = "chunked" -> LawChunked(row.s, row.n, row.fill)
           [] row.f = "windowed" -> LawWindowed(row.s, row.n, row.fill)
           [] row.f = "unique" -> LawUnique(row.s, row.kf)
